@@ -93,6 +93,7 @@ type Path struct {
 	noMerge    bool
 	noDivAxiom bool
 	merges     int
+	decLabels  map[string]int
 }
 
 type ufApp struct {
@@ -199,6 +200,10 @@ func (p *Path) choose(alts []*Term, label string) int {
 		alt[len(p.prefix)] = o
 		p.newAlts = append(p.newAlts, alt)
 	}
+	if p.decLabels == nil {
+		p.decLabels = map[string]int{}
+	}
+	p.decLabels[fmt.Sprintf("%s/%d-of-%d", label, len(feas), len(alts))]++
 	c := feas[0]
 	p.prefix = append(p.prefix, c)
 	p.pos++
